@@ -283,6 +283,16 @@ func (run *poolRun) apply(op string) bool {
 			run.mu.Unlock()
 			return false
 		}
+		if op[0] == 'G' {
+			// one armed reader at a time: which of two readers blocked on the pool mutex reaches
+			// the gate first is the runtime's choice and would make the observation ambiguous
+			for _, q := range run.readers {
+				if q.armed || q.st == "gate" {
+					run.mu.Unlock()
+					return false
+				}
+			}
+		}
 		r.st = "run"
 		r.armed = op[0] == 'G'
 		r.release = make(chan struct{})
@@ -398,7 +408,7 @@ func genC04(w *bufio.Writer, rng *hx.Rng, tier string) {
 func genPoolGated(w *bufio.Writer, rng *hx.Rng, tier, cmd string) {
 	nrand := 150
 	if tier == "thorough" {
-		nrand = 2500
+		nrand = 2000
 	}
 	kinds := []string{"lowmem", "std"}
 	// the lost-wake-up window, every capacity 1..4, both pools
